@@ -1,7 +1,358 @@
-/- Line-protocol engine for C09 — stub, to be filled in. -/
-import CV.Proto
+/-
+Line-protocol engine for C09 (ACL result filtering + token expiry).
+See go/overlay/internal/verifharness/c09/main.go for the producer of these lines.
+
+  f <Type> <authz-table> <aclRead> <aclWrite> <args…>      → filtered response in the same syntax, or `panic`
+  x-begin <s|r> <ttl> <allow|deny|extend-cache|async-cache> → ok          (new resolver: server- or remote-backed)
+  x-put <secret> <accessor> <exp|~> <grants>                → ok          (state store upsert, server mode)
+  x-del <secret>                                            → ok          (token reaped / deleted)
+  x-res <now> <secret> [rpc…]                               → granted <accessor> <grants> | notfound | down <0|1>
+  x-mask <now> <secret> <flag> [rpc…]                       → 0 | 1
+  rpc… ::= found <secret> <accessor> <exp|~> <grants> | foreign | notfound | error
+
+Lists: `,` (top level) and `|` (nested); item fields: `;` (top level) and `+` (nested); `-` = empty
+list, `~` = nil. The authorizer travels as a decision table over the name universe
+(`name;NSEKIQ` bits: node, service, session, key, intention, query); every string of the payload must
+occur in the table, otherwise the line is rejected (`bad-op`) rather than defaulted.
+-/
+import CV.Filter
+import CV.FilterExpiry
 namespace CV.Engine.C09
-open CV
-def step (_ : Unit) (_toks : List String) : Unit × String := ((), "bad-op")
-def engine : Engine := { State := Unit, init := (), step := step }
+open CV CV.Filter
+
+def splitL (sep : String) (tok : String) : List String := if tok == "-" then [] else tok.splitOn sep
+def joinL (sep : String) (l : List String) : String := if l.isEmpty then "-" else sep.intercalate l
+
+def decOptS (tok : String) : Option (Option String) := if tok == "~" then some none else (decS tok).map some
+def encOptS : Option String → String
+  | none => "~"
+  | some s => encS s
+
+/-! ### authorizer table -/
+
+structure Perm where
+  n : Bool
+  s : Bool
+  e : Bool
+  k : Bool
+  i : Bool
+  q : Bool
+
+def parsePerm (tok : String) : Option (String × Perm) :=
+  match tok.splitOn ";" with
+  | [nm, bits] => do
+    let nm ← decS nm
+    match bits.toList.map (fun c => decBool (String.singleton c)) with
+    | [some n, some s, some e, some k, some i, some q] => some (nm, ⟨n, s, e, k, i, q⟩)
+    | _ => none
+  | _ => none
+
+def look (tbl : List (String × Perm)) (f : Perm → Bool) (nm : String) : Bool :=
+  match tbl.find? fun e => e.1 = nm with
+  | some e => f e.2
+  | none => false      -- unreachable for accepted lines: `covered` is checked first
+
+def mkAuthz (tbl : List (String × Perm)) (r w : Bool) : Authz :=
+  { nodeRead := look tbl (·.n), serviceRead := look tbl (·.s), sessionRead := look tbl (·.e),
+    keyRead := look tbl (·.k), intentionRead := look tbl (·.i), queryRead := look tbl (·.q),
+    aclRead := r, aclWrite := w }
+
+/-- every string-encoded sub-token of the payload names an entry of the table -/
+def covered (tbl : List (String × Perm)) (args : List String) : Bool :=
+  args.all fun a =>
+    ((((a.splitOn ",").flatMap (·.splitOn ";")).flatMap (·.splitOn "|")).flatMap (·.splitOn "+")).all fun t =>
+      if t.startsWith "=" || t.startsWith "x" then
+        match decS t with
+        | some s => tbl.any fun e => e.1 = s
+        | none => false
+      else true
+
+/-! ### items -/
+
+def encNodeEnt (c : NodeEnt) : String := s!"{encS c.node};{c.id}"
+def decNodeEnt (t : String) : Option NodeEnt :=
+  match t.splitOn ";" with
+  | [n, i] => do some ⟨← decS n, ← i.toNat?⟩
+  | _ => none
+
+def encSvcEnt (c : SvcEnt) : String := s!"{encS c.node};{encS c.svc};{c.id}"
+def decSvcEnt (t : String) : Option SvcEnt :=
+  match t.splitOn ";" with
+  | [n, s, i] => do some ⟨← decS n, ← decS s, ← i.toNat?⟩
+  | _ => none
+
+def encCSN (fs : String) (c : CSN) : String := fs.intercalate [encOptS c.node, encOptS c.svc, toString c.id]
+def decCSN (fs : String) (t : String) : Option CSN :=
+  match t.splitOn fs with
+  | [n, s, i] => do some ⟨← decOptS n, ← decOptS s, ← i.toNat?⟩
+  | _ => none
+def encCSNs (ls fs : String) (xs : List CSN) : String := joinL ls (xs.map (encCSN fs))
+def decCSNs (ls fs : String) (t : String) : Option (List CSN) := (splitL ls t).mapM (decCSN fs)
+
+def encIxn (x : Ixn) : String := s!"{encS x.src};{encBool x.srcPeer};{encS x.dst};{x.id}"
+def decIxn (t : String) : Option Ixn :=
+  match t.splitOn ";" with
+  | [s, p, d, i] => do some ⟨← decS s, ← decBool p, ← decS d, ← i.toNat?⟩
+  | _ => none
+
+def encGw (g : GwSvc) : String := s!"{encS g.gw};{encS g.svc};{g.id}"
+def decGw (t : String) : Option GwSvc :=
+  match t.splitOn ";" with
+  | [g, s, i] => do some ⟨← decS g, ← decS s, ← i.toNat?⟩
+  | _ => none
+
+def encSvcInfo (s : SvcInfo) : String :=
+  match s.gs with
+  | none => s!"~;~;{encOptS s.node};{s.id}"
+  | some g => s!"{encS g.1};{encS g.2};{encOptS s.node};{s.id}"
+def decSvcInfo (t : String) : Option SvcInfo :=
+  match t.splitOn ";" with
+  | [g, s, n, i] => do
+    let n ← decOptS n
+    let i ← i.toNat?
+    if g == "~" && s == "~" then some ⟨none, n, i⟩
+    else some ⟨some (← decS g, ← decS s), n, i⟩
+  | _ => none
+
+def encSub (fs : String) (s : Sub) : String := s!"{encS s.1}{fs}{s.2}"
+def decSub (fs : String) (t : String) : Option Sub :=
+  match t.splitOn fs with
+  | [n, i] => do some (← decS n, ← i.toNat?)
+  | _ => none
+
+def encNodeInfo (x : NodeInfo) : String :=
+  s!"{encS x.node};{x.id};{joinL "|" (x.svcs.map (encSub "+"))};{joinL "|" (x.chks.map (encSub "+"))}"
+def decNodeInfo (t : String) : Option NodeInfo :=
+  match t.splitOn ";" with
+  | [n, i, ss, cs] => do
+    some ⟨← decS n, ← i.toNat?, ← (splitL "|" ss).mapM (decSub "+"), ← (splitL "|" cs).mapM (decSub "+")⟩
+  | _ => none
+
+def encPQ (q : PQ) : String := s!"{encS q.name};{encBool q.tmpl};{q.tok};{q.id}"
+def decPQ (t : String) : Option PQ :=
+  match t.splitOn ";" with
+  | [n, tm, tk, i] => do
+    let tk ← tk.toNat?
+    if tk > 1 then none else some ⟨← decS n, ← decBool tm, tk, ← i.toNat?⟩
+  | _ => none
+
+def encAcl : Option AclObj → String
+  | none => "~"
+  | some o => s!"{o.id};{o.secret}"
+def decAcl (t : String) : Option (Option AclObj) :=
+  if t == "~" then some none else
+  match t.splitOn ";" with
+  | [i, s] => do
+    let s ← s.toNat?
+    if s != 1 then none else some (some ⟨← i.toNat?, s⟩)
+  | _ => none
+
+def encTxn : TxnRes → String
+  | .kv k i => s!"k;{encS k};~;{i}"
+  | .node n i => s!"n;{encS n};~;{i}"
+  | .service s i => s!"s;{encS s};~;{i}"
+  | .check n s i => s!"c;{encS n};{encS s};{i}"
+  | .empty i => s!"e;~;~;{i}"
+def decTxn (t : String) : Option TxnRes :=
+  match t.splitOn ";" with
+  | ["k", k, "~", i] => do some (.kv (← decS k) (← i.toNat?))
+  | ["n", n, "~", i] => do some (.node (← decS n) (← i.toNat?))
+  | ["s", s, "~", i] => do some (.service (← decS s) (← i.toNat?))
+  | ["c", n, s, i] => do some (.check (← decS n) (← decS s) (← i.toNat?))
+  | ["e", "~", "~", i] => do some (.empty (← i.toNat?))
+  | _ => none
+
+def decMapEntry {β : Type} (f : String → Option β) (t : String) : Option (String × β) :=
+  match t.splitOn ";" with
+  | [k, v] => do some (← decS k, ← f v)
+  | _ => none
+
+def decKeyed (t : String) : Option (String × Nat) :=
+  match t.splitOn ";" with
+  | [k, i] => do some (← decS k, ← i.toNat?)
+  | _ => none
+def encKeyed (e : String × Nat) : String := s!"{encS e.1};{e.2}"
+
+def decNS (t : String) : Option (String × (String × Nat)) :=
+  match t.splitOn ";" with
+  | [k, n, i] => do some (← decS k, (← decS n, ← i.toNat?))
+  | _ => none
+def encNS (e : String × (String × Nat)) : String := s!"{encS e.1};{encS e.2.1};{e.2.2}"
+
+def nodupKeys {β : Type} (m : List (String × β)) : Bool := (m.map (·.1)).eraseDups.length == m.length
+
+def aclKindOf : String → Option (AclKind × Bool)     -- (kind, is the list form)
+  | "ACLTokens" => some (.token, true) | "PtrACLToken" => some (.token, false)
+  | "ACLTokenListStubs" => some (.tokenStub, true) | "PtrACLTokenListStub" => some (.tokenStub, false)
+  | "ACLPolicies" => some (.policy, true) | "PtrACLPolicy" => some (.policy, false)
+  | "ACLRoles" => some (.role, true) | "PtrACLRole" => some (.role, false)
+  | "ACLBindingRules" => some (.bindingRule, true) | "PtrACLBindingRule" => some (.bindingRule, false)
+  | "ACLAuthMethods" => some (.authMethod, true) | "PtrACLAuthMethod" => some (.authMethod, false)
+  | _ => none
+
+def parseResp (ty : String) (args : List String) : Option Resp :=
+  match ty, args with
+  | "CheckServiceNodes", [xs] => do some (.csns (← decCSNs "," ";" xs))
+  | "IndexedCheckServiceNodes", [f, xs] => do some (.indexedCSNs (← decCSNs "," ";" xs) (← decBool f))
+  | "PreparedQueryExecuteResponse", [f, xs] => do some (.pqExecute (← decCSNs "," ";" xs) (← decBool f))
+  | "IndexedServiceTopology", [fb, f, "~"] => do some (.topology none (← decBool fb) (← decBool f))
+  | "IndexedServiceTopology", [fb, f, u, d] => do
+      some (.topology (some (← decCSNs "," ";" u, ← decCSNs "," ";" d)) (← decBool fb) (← decBool f))
+  | "DatacenterIndexedCheckServiceNodes", [f, m] => do
+      let m ← (splitL "," m).mapM (decMapEntry (decCSNs "|" "+"))
+      if nodupKeys m then some (.dcCSNs m (← decBool f)) else none
+  | "IndexedCoordinates", [f, xs] => do some (.coordinates (← (splitL "," xs).mapM decNodeEnt) (← decBool f))
+  | "IndexedHealthChecks", [f, xs] => do some (.healthChecks (← (splitL "," xs).mapM decSvcEnt) (← decBool f))
+  | "IndexedIntentions", [f, xs] => do some (.intentions (← (splitL "," xs).mapM decIxn) (← decBool f))
+  | "IntentionQueryMatch", [xs] => do some (.ixnMatch (← (splitL "," xs).mapM decS))
+  | "IndexedNodeDump", [f, d, i] => do
+      some (.nodeDump (← (splitL "," d).mapM decNodeInfo) (← (splitL "," i).mapM decNodeInfo) (← decBool f))
+  | "IndexedServiceDump", [f, xs] => do some (.serviceDump (← (splitL "," xs).mapM decSvcInfo) (← decBool f))
+  | "IndexedNodes", [f, xs] => do some (.nodes (← (splitL "," xs).mapM decNodeEnt) (← decBool f))
+  | "IndexedNodeServices", [f, "~"] => do some (.nodeServices none (← decBool f))
+  | "IndexedNodeServices", [f, n, m] => do
+      let m ← (splitL "," m).mapM decNS
+      if nodupKeys m then some (.nodeServices (some (← decS n, m)) (← decBool f)) else none
+  | "IndexedNodeServiceList", [f, n, xs] => do
+      some (.nodeServiceList (← decOptS n) (← (splitL "," xs).mapM (decSub ";")) (← decBool f))
+  | "IndexedServiceNodes", [f, xs] => do some (.serviceNodes (← (splitL "," xs).mapM decSvcEnt) (← decBool f))
+  | "IndexedServices", [f, m] => do
+      let m ← (splitL "," m).mapM decKeyed
+      if nodupKeys m then some (.services m (← decBool f)) else none
+  | "IndexedSessions", [f, xs] => do some (.sessions (← (splitL "," xs).mapM decNodeEnt) (← decBool f))
+  | "IndexedPreparedQueries", [f, xs] => do some (.preparedQueries (← (splitL "," xs).mapM decPQ) (← decBool f))
+  | "PtrPreparedQuery", [q] => do some (.preparedQuery (← decPQ q))
+  | "IndexedServiceList", [f, xs] => do some (.serviceList (← (splitL "," xs).mapM decS) (← decBool f))
+  | "IndexedExportedServiceList", [f, m] => do
+      let m ← (splitL "," m).mapM (decMapEntry fun v => (splitL "|" v).mapM decS)
+      if nodupKeys m then some (.exportedServiceList m (← decBool f)) else none
+  | "IndexedGatewayServices", [f, xs] => do some (.gatewayServices (← (splitL "," xs).mapM decGw) (← decBool f))
+  | "IndexedNodesWithGateways", [f, ns, gs, is] => do
+      some (.nodesWithGateways (← decCSNs "," ";" ns) (← (splitL "," gs).mapM decGw) (← decCSNs "," ";" is) (← decBool f))
+  | "DirEntries", [xs] => do some (.dirEntries (← (splitL "," xs).mapM decKeyed))
+  | "TxnResults", [xs] => do some (.txnResults (← (splitL "," xs).mapM decTxn))
+  | ty, [xs] =>
+      match aclKindOf ty with
+      | some (k, true) => do some (.aclList k (← (splitL "," xs).mapM decAcl))
+      | some (k, false) => do some (.aclOne k (← decAcl xs))
+      | none => none
+  | _, _ => none
+
+def encResp : Resp → String
+  | .csns xs => encCSNs "," ";" xs
+  | .indexedCSNs xs f => s!"{encBool f} {encCSNs "," ";" xs}"
+  | .pqExecute xs f => s!"{encBool f} {encCSNs "," ";" xs}"
+  | .topology none fb f => s!"{encBool fb} {encBool f} ~"
+  | .topology (some (u, d)) fb f => s!"{encBool fb} {encBool f} {encCSNs "," ";" u} {encCSNs "," ";" d}"
+  | .dcCSNs m f => s!"{encBool f} {joinL "," (m.map fun e => s!"{encS e.1};{encCSNs "|" "+" e.2}")}"
+  | .coordinates xs f => s!"{encBool f} {joinL "," (xs.map encNodeEnt)}"
+  | .healthChecks xs f => s!"{encBool f} {joinL "," (xs.map encSvcEnt)}"
+  | .intentions xs f => s!"{encBool f} {joinL "," (xs.map encIxn)}"
+  | .ixnMatch es => joinL "," (es.map encS)
+  | .nodeDump d i f => s!"{encBool f} {joinL "," (d.map encNodeInfo)} {joinL "," (i.map encNodeInfo)}"
+  | .serviceDump xs f => s!"{encBool f} {joinL "," (xs.map encSvcInfo)}"
+  | .nodes xs f => s!"{encBool f} {joinL "," (xs.map encNodeEnt)}"
+  | .nodeServices none f => s!"{encBool f} ~"
+  | .nodeServices (some (n, m)) f => s!"{encBool f} {encS n} {joinL "," (m.map encNS)}"
+  | .nodeServiceList n xs f => s!"{encBool f} {encOptS n} {joinL "," (xs.map (encSub ";"))}"
+  | .serviceNodes xs f => s!"{encBool f} {joinL "," (xs.map encSvcEnt)}"
+  | .services m f => s!"{encBool f} {joinL "," (m.map encKeyed)}"
+  | .sessions xs f => s!"{encBool f} {joinL "," (xs.map encNodeEnt)}"
+  | .preparedQueries xs f => s!"{encBool f} {joinL "," (xs.map encPQ)}"
+  | .preparedQuery q => encPQ q
+  | .aclList _ xs => joinL "," (xs.map encAcl)
+  | .aclOne _ x => encAcl x
+  | .serviceList xs f => s!"{encBool f} {joinL "," (xs.map encS)}"
+  | .exportedServiceList m f => s!"{encBool f} {joinL "," (m.map fun e => s!"{encS e.1};{joinL "|" (e.2.map encS)}")}"
+  | .gatewayServices xs f => s!"{encBool f} {joinL "," (xs.map encGw)}"
+  | .nodesWithGateways ns gs is f =>
+      s!"{encBool f} {encCSNs "," ";" ns} {joinL "," (gs.map encGw)} {encCSNs "," ";" is}"
+  | .dirEntries xs => joinL "," (xs.map encKeyed)
+  | .txnResults xs => joinL "," (xs.map encTxn)
+
+/-! ### expiry -/
+open CV.Filter.Expiry in
+structure XState where
+  server : Bool
+  cfg    : Cfg
+  store  : List Token
+  cache  : Cache
+
+open CV.Filter.Expiry
+
+def anonAccessor : String := "00000000-0000-0000-0000-000000000002"
+def anonSecret : String := "anonymous"
+
+def decDown : String → Option Down
+  | "allow" => some .allow | "deny" => some .deny
+  | "extend-cache" => some .extendCache | "async-cache" => some .asyncCache
+  | _ => none
+
+def decExp (t : String) : Option (Option Nat) := if t == "~" then some none else t.toNat?.map some
+
+def decToken (s a e g : String) : Option Token := do
+  some ⟨← decS s, ← decS a, ← decExp e, ← (splitL "," g).mapM decS⟩
+
+def decRpc : List String → Option Rpc
+  | ["found", s, a, e, g] => (decToken s a e g).map .found
+  | ["foreign"] => some .foreignLocal
+  | ["notfound"] => some .notFound
+  | ["error"] => some .error
+  | _ => none
+
+def backendOf (st : XState) (rpc : List String) : Option Backend :=
+  if st.server then (if rpc.isEmpty then some (.server st.store) else none)
+  else (decRpc rpc).map .remote
+
+def encOutcome : Outcome → String
+  | .granted t => s!"granted {encS t.accessor} {joinL "," (t.grants.map encS)}"
+  | .notFound => "notfound"
+  | .down b => s!"down {encBool b}"
+
+abbrev State := Option XState
+
+def step (st : State) (toks : List String) : State × String :=
+  match toks with
+  | "f" :: ty :: tbl :: r :: w :: args =>
+    match (splitL "," tbl).mapM parsePerm, decBool r, decBool w, parseResp ty args with
+    | some tbl, some r, some w, some resp =>
+      if !covered tbl args then (st, "bad-op")
+      else match filterResp (mkAuthz tbl r w) resp with
+        | some out => (st, encResp out)
+        | none => (st, "panic")
+    | _, _, _, _ => (st, "bad-op")
+  | ["x-begin", mode, ttl, down] =>
+    match decBool mode, ttl.toNat?, decDown down with
+    | some m, some ttl, some d => (some ⟨m, ⟨ttl, d⟩, [], []⟩, "ok")
+    | _, _, _ => (st, "bad-op")
+  | ["x-put", s, a, e, g] =>
+    match st, decToken s a e g with
+    | some x, some t => (some { x with store := t :: x.store.filter fun u => u.secret ≠ t.secret }, "ok")
+    | _, _ => (st, "bad-op")
+  | ["x-del", s] =>
+    match st, decS s with
+    | some x, some s => (some { x with store := x.store.filter fun u => u.secret ≠ s }, "ok")
+    | _, _ => (st, "bad-op")
+  | "x-res" :: now :: s :: rpc =>
+    match st, now.toNat?, decS s with
+    | some x, some now, some s =>
+      match backendOf x rpc with
+      | some b =>
+        let (c, o) := resolveToken x.cfg b x.cache s now
+        (some { x with cache := c }, encOutcome o)
+      | none => (st, "bad-op")
+    | _, _, _ => (st, "bad-op")
+  | "x-mask" :: now :: s :: flag :: rpc =>
+    match st, now.toNat?, decS s, decBool flag with
+    | some x, some now, some s, some flag =>
+      match backendOf x rpc with
+      | some b =>
+        let (c, o) := mask x.cfg b x.cache s anonAccessor anonSecret now flag
+        (some { x with cache := c }, encBool o)
+      | none => (st, "bad-op")
+    | _, _, _, _ => (st, "bad-op")
+  | _ => (st, "bad-op")
+
+def engine : Engine := { State := State, init := none, step := step }
+
 end CV.Engine.C09
